@@ -331,7 +331,7 @@ def main(argv=None):
     results = run_tasks(tasks)
     known = load_known()
 
-    violations, known_hits, undecided, errors, vacuity = [], [], [], [], []
+    violations, known_hits, undecided, errors, vacuity, unbound = [], [], [], [], [], []
     n_obl = {'U': 0, 'B': 0, 'R': 0}
     n_dis = {'U': 0, 'B': 0, 'R': 0}
     n_paths = 0
@@ -353,8 +353,15 @@ def main(argv=None):
         external.update(r.get('external', {}))
         if t.kind == 'rt':
             rt_cases += r['paths']
-        for e in r['errors']:
-            errors.append('%s: %s' % (t.name, e))
+        if t.tier == 'U' and r['errors'] and all(str(e).startswith('Unbound:') for e in r['errors']):
+            # the CONTRACT of an unbounded-tier task no longer binds to the function's current text (renamed loop-carried local, rewritten loop header).
+            # That is not evidence about the code: the obligation is counted as NOT discharged and reported, and the verdict is left to the bounded and
+            # run-time tiers, which execute the same function whole and do not depend on its local names.
+            unbound.append('%s: %s' % (t.name, r['errors'][0]))
+            n_obl['U'] += 1
+        else:
+            for e in r['errors']:
+                errors.append('%s: %s' % (t.name, e))
         if r['paths'] - r['infeasible'] <= 0 and not r['errors']:
             vacuity.append('%s: no feasible path (contradictory precondition?)' % t.name)
         for cname, c in r['checks'].items():
@@ -454,7 +461,7 @@ def main(argv=None):
         source_sha256={os.path.relpath(f, '/repo'): file_sha(f) for f in files},
         lemmas=list(getattr(mod, 'LEMMAS', [])),
         tasks=len(tasks), paths=n_paths, solver_queries=queries, solver_s=round(solver_s, 2), backends=backends,
-        sentinels=sent_report, undecided=undecided[:20], engine_errors=errors[:20], vacuity=vacuity[:20],
+        sentinels=sent_report, undecided=undecided[:20], engine_errors=errors[:20], vacuity=vacuity[:20], unbound_contracts=unbound[:20],
         known_findings=[dict(id=k.get('id'), obligation=r['obligation'], task=r['task']) for k, r in known_hits],
         not_decided=list(getattr(mod, 'NOT_DECIDED', [])),
     )
@@ -475,6 +482,8 @@ def main(argv=None):
             continue
         seen.add(key)
         print('KNOWN-FINDING: property=%s %s [%s; obligation %s; replay %s]' % (prop, k.get('what'), k.get('id'), r['obligation'], r['path']))
+    for u in unbound[:10]:
+        print('UNBOUND-CONTRACT (tier U obligation not discharged; bounded and run-time tiers decide): %s' % u[:400])
     for v in violations:
         print('VIOLATION property=%s replay=%s obligation=%s task=%s%s' % (
             prop, v['path'], v['obligation'], v['task'], '' if v['confirmed'] else ' no-failing-input-found'))
